@@ -15,7 +15,7 @@ E3 = "E3: IEEE-754 binary64 round-to-nearest-even for + - * / and exact int->flo
 CH_TECH = "CrossHair symbolic execution of the real functions (z3), path-exhaustive within stated bounds, reachability twins, concrete replay"
 
 
-def _ned(prefix, tier, funcs, quick=("0,1", "6,1", "1,5", "7,6"), thorough=("0,1", "6,1", "1,5", "7,6", "2,6", "5,3", "7,5", "3,4", "4,7")):
+def _ned(prefix, tier, funcs, quick=("0,1", "6,1", "1,5", "7,6"), thorough=("0,1", "6,1", "1,5", "7,6", "2,6", "5,3", "7,5", "3,4", "2,0")):
     """The NoteEvent.from_parsed_data harness, one partition per pair of concrete line indices."""
     return [Ob(f"{prefix}[{ix}]", "CH", "harness.h_instrument", "note_event_dataflow", 900, {"VF_IDX2": ix}, funcs=funcs,
                bounds="two lines with these indices at one tick; symbolic lengths, tick, gap, resolution, tempo boundary, hint, one phrase; "
